@@ -202,6 +202,68 @@ fn floating(out: &mut Out, r: &mut Rng, m128: bool, shadow: bool, reads: u64, lo
     }
 }
 
+/// a history of writes to arbitrary ports on a machine with the sound on: after each write the border colour and the
+/// settled speaker/MIC level heard (the ULA's three write-side functions) are recorded
+fn ula_writes(out: &mut Out, r: &mut Rng, m128: bool, n: u64) {
+    let mut cfg = EmuCfg::new(m128);
+    cfg.sound = true;
+    cfg.beeper = true;
+    cfg.ay = false;
+    cfg.rate = 44100;
+    cfg.volume = 100;
+    let mut emu = cfg.build();
+    poke_bytes(&mut emu, CODE, &[0xED, 0x78, 0xED, 0x79, 0x18, 0xFE]);
+    {
+        let c = emu.verif_cpu();
+        c.regs.set_sp(0xBFF0);
+        c.regs.set_iff1(false);
+    }
+    let settle = |emu: &mut Emu| -> i32 {
+        emu.verif_cpu().regs.set_pc(CODE + 4);
+        emu.set_debug_interface(VDebug::Never);
+        emu.set_speed(rustzx_core::EmulationMode::FrameCount(1));
+        for _ in 0..2 {
+            emu.emulate_frames(std::time::Duration::from_secs(1000)).unwrap();
+        }
+        let mut last = f32::NAN;
+        while let Some(s) = emu.next_audio_sample() {
+            last = s.left;
+        }
+        for c in 0..4 {
+            let want = (((c >> 1) & 1) as f64 * 0.5 + (c & 1) as f64 * 0.1) * 0.5;
+            if (last as f64 - want).abs() < 1e-6 {
+                return c;
+            }
+        }
+        -1
+    };
+    out_port(&mut emu, 0x00FE, 0);
+    settle(&mut emu);
+    let mut ops = vec![];
+    let mut prev = 0u8;
+    for i in 0..n {
+        let port: u16 = match r.below(4) {
+            0 => ((r.u8() as u16) << 8) | 0xFE,
+            1 => r.below(0x10000) as u16 & !1,
+            2 => r.below(0x10000) as u16 | 1,
+            _ => r.below(0x10000) as u16,
+        };
+        // values walk through every ordered pair of speaker/MIC settings; the other bits are arbitrary
+        let val = match i % 3 {
+            0 => (r.u8() & 0xE7) | (prev & 0x18) ^ [0x08, 0x10, 0x18][r.below(3) as usize],
+            1 => r.u8(),
+            _ => (r.u8() & 0xE7) | (prev & 0x18),
+        };
+        out_port(&mut emu, port, val);
+        if port & 1 == 0 {
+            prev = val;
+        }
+        let code = settle(&mut emu);
+        ops.push(json!([port, val, emu.border_color() as u8, code]));
+    }
+    out.ev(json!({"ev":"ulawr","m": if m128 {128} else {48},"ops":ops}));
+}
+
 pub fn run(args: &Args) {
     let mut out = Out::create(&args.str("out", "-"));
     let seed = args.num("seed", 1);
@@ -219,6 +281,11 @@ pub fn run(args: &Args) {
         let (m128, k, mo, ex) = order[(i + first) % 16];
         let szx_mouse = if mo { if i % 2 == 0 { Some(2) } else { None } } else { [Some(1), Some(0), None][i % 3] };
         sweep(&mut out, &mut r, m128, k, mo, ex, i % 2 == 1, szx_mouse);
+    }
+    let uw = args.num("ulawrites", 0);
+    if uw > 0 {
+        ula_writes(&mut out, &mut r, false, uw);
+        ula_writes(&mut out, &mut r, true, uw);
     }
     let fl = args.num("floating", 0);
     if fl > 0 {
